@@ -864,16 +864,21 @@ pub fn gen_naming(rng: &mut Rng, allow_custom: bool) -> NamingK {
 }
 
 pub fn gen_name_parts(rng: &mut Rng, dir: &Path, naming: NamingK, allow_ts: bool) -> (NameCfg, bool) {
-    let basename = match rng.below(5) {
+    // incl. parts that contain fragments of the infix language ("_r", "_r0…", "rCURRENT")
+    let basename = match rng.below(8) {
         0 => String::new(),
         1 => "x".to_string(),
         2 => "my_prog".to_string(),
         3 => "app-1.2".to_string(),
+        4 => "web_router".to_string(),
+        5 => "a_r00".to_string(),
         _ => "flmon".to_string(),
     };
-    let discr = match rng.below(4) {
+    let discr = match rng.below(6) {
         0 => Some("D".to_string()),
         1 => Some("node_7".to_string()),
+        2 => Some("my_r".to_string()),
+        3 => Some("rCURRENT".to_string()),
         _ => None,
     };
     let suffix = match rng.below(6) {
